@@ -20,11 +20,9 @@ import (
 	"errors"
 	"fmt"
 	"reflect"
-	"runtime/debug"
 	"strings"
 
 	"github.com/cloudwego/eino/internal/generic"
-	"github.com/cloudwego/eino/internal/safe"
 	"github.com/cloudwego/eino/schema"
 )
 
@@ -594,7 +592,9 @@ func fieldMap(mappings []*FieldMapping, allowMapKeyNotFound bool) func(any) (map
 						return nil, err
 					}
 
-					panic(safe.NewPanicErr(err, debug.Stack()))
+					// what an interface-typed field or a pointer actually holds is only known at request time:
+					// a missing field, a map without string keys or a nil pointer is a request time error as well
+					return nil, err
 				}
 
 				if i < len(fromPath)-1 {
@@ -633,7 +633,11 @@ func takeOne(inputValue reflect.Value, inputType reflect.Type, from string) (tak
 
 		return f.Interface(), f.Type(), nil
 	case reflect.Ptr, reflect.Interface:
+		ptrType := inputValue.Type()
 		inputValue = inputValue.Elem()
+		if inputValue.Kind() != reflect.Struct {
+			return nil, nil, fmt.Errorf("field mapping from a struct ptr, but it is nil or does not point to a struct, type= %v", ptrType)
+		}
 		fallthrough
 	case reflect.Struct:
 		f, err = checkAndExtractFromField(from, inputValue)
